@@ -423,9 +423,19 @@ theorem C12_off_clears_sys (s : Sys F) (pkt : Sys.Bytes) (now : Nat) (hne : pkt 
 theorem off_clear_step (s : Sys F) (e : Ev) (hoff : s.cfg.stallDeselect = false)
     (h : ∀ l ∈ s.links, GuardClear l) : ∀ l' ∈ (step s e).1.links, GuardClear l' := by
   intro l' hmem
+  cases hnr : e.isReload with
+  | true =>
+    -- a reload keeps the records of the retained links; a fresh link has a clear guard
+    cases e with
+    | reload now addrs outs =>
+      rcases mem_reload hmem with ⟨h1, -⟩ | ⟨id, a, -, -, rfl⟩
+      · exact h l' h1
+      · exact ⟨rfl, rfl, rfl, rfl⟩
+    | _ => cases hnr
+  | false =>
   obtain ⟨j, hj, hget⟩ := List.getElem_of_mem hmem
   have hl' : (step s e).1.links[j]? = some l' := by rw [← hget]; exact List.getElem?_eq_getElem hj
-  have hlen : (step s e).1.links.length = s.links.length := (Hk.step_link s e).2.1
+  have hlen : (step s e).1.links.length = s.links.length := (Hk.step_link s e hnr).2.1
   have hj' : j < s.links.length := by omega
   have hl : s.links[j]? = some s.links[j] := List.getElem?_eq_getElem hj'
   have hc := h s.links[j] (List.getElem_mem hj')
@@ -438,7 +448,7 @@ theorem off_clear_step (s : Sys F) (e : Ev) (hoff : s.cfg.stallDeselect = false)
     · obtain ⟨a1, a2, a3, a4, -⟩ := (pass_guard s now j _ m hl hm).2.2 hoff
       exact ⟨a4, a3, a1, a2⟩
   · exact guardClear_of_same
-      (other_guard s e (fun now pkt h => hcl ⟨now, pkt, h⟩) j _ l' hl hl') hc
+      (other_guard s e (fun now pkt h => hcl ⟨now, pkt, h⟩) hnr j _ l' hl hl') hc
 
 /-- The state after a list of events (`= (Sys.run s evs).1`). -/
 def after (s : Sys F) (evs : List Ev) : Sys F := evs.foldl (fun s e => (step s e).1) s
